@@ -50,6 +50,8 @@ pub struct Creds { pub domain: String, pub user: String, pub password: String, p
 /// when set: the Ntlm object first goes through a complete earlier handshake with this CHALLENGE
 pub static PRE_CHAL: std::sync::Mutex<Option<Vec<u8>>> = std::sync::Mutex::new(None);
 pub static EXPECT_TOKEN: std::sync::atomic::AtomicBool = std::sync::atomic::AtomicBool::new(false);
+/// with PRE_CHAL: the second CHALLENGE is handed to the object without a new NEGOTIATE message in between
+pub static PRE_NO_RENEG: std::sync::atomic::AtomicBool = std::sync::atomic::AtomicBool::new(false);
 
 pub fn run_auth(em: &mut Emitter, c: &Creds, chal: &[u8]) {
     let nt_hash = md4(&utf16(&c.password));
@@ -58,8 +60,9 @@ pub fn run_auth(em: &mut Emitter, c: &Creds, chal: &[u8]) {
     let chal2 = chal.to_vec();
     let r = catch_unwind(AssertUnwindSafe(|| {
         let mut n = if c.from_hash { Ntlm::from_hash(c.domain.clone(), c.user.clone(), &nt_hash) } else { Ntlm::new(c.domain.clone(), c.user.clone(), c.password.clone()) };
-        if let Some(pre) = PRE_CHAL.lock().unwrap().clone() { let _ = n.create_negotiate_message(); let _ = n.read_challenge_message(&pre); }
-        let neg = n.create_negotiate_message().unwrap();
+        let mut first_neg = None;
+        if let Some(pre) = PRE_CHAL.lock().unwrap().clone() { first_neg = n.create_negotiate_message().ok(); let _ = n.read_challenge_message(&pre); }
+        let neg = if PRE_NO_RENEG.load(std::sync::atomic::Ordering::Relaxed) && first_neg.is_some() { first_neg.unwrap() } else { n.create_negotiate_message().unwrap() };
         (neg, n.read_challenge_message(&chal2))
     }));
     let peak = crate::alloc_count::max();
@@ -221,6 +224,25 @@ pub fn generate_c07(thorough: bool, seed: u64, part: (usize, usize), em: &mut Em
                 run_auth(em, &c, &challenge(flags, &sc, &ti, *version, *off - hdr, *ld));
             }
         }
+    }
+    // the 16-bit length of the target information at its upper boundary (well-formed AV pairs): the
+    // NT response then no longer fits its own 16-bit length field
+    for n in &[65535usize, 65492, 65491, 65000] {
+        let mut ti = av(1, &vec![0x41u8; n - 20]); ti.extend(av(7, &[1, 2, 3, 4, 5, 6, 7, 8])); ti.extend(av(0, &[]));
+        run_auth(em, &c, &challenge(0x62898235, &sc, &ti, false, 0, 0));
+    }
+    // a second CHALLENGE handed to the same Ntlm object (after a good one, after a refused one), with and
+    // without a new NEGOTIATE message in between
+    {
+        let ti = { let mut v = av(2, &utf16("D")); v.extend(av(7, &[9u8; 8])); v.extend(av(0, &[])); v };
+        for version in &[false, true] { for noreneg in &[false, true] { for badfirst in &[false, true] {
+            let flags: u32 = 0x62898235 | if *version { 0x02000000 } else { 0 };
+            let good = challenge(flags, &sc, &ti, *version, 0, 0);
+            *PRE_CHAL.lock().unwrap() = Some(if *badfirst { good[..good.len() - 3].to_vec() } else { good.clone() });
+            PRE_NO_RENEG.store(*noreneg, std::sync::atomic::Ordering::Relaxed);
+            run_auth(em, &c, &good);
+            *PRE_CHAL.lock().unwrap() = None; PRE_NO_RENEG.store(false, std::sync::atomic::Ordering::Relaxed);
+        } } }
     }
     // target-info shapes: no timestamp, no EOL, unknown ids, lengths past the end, empty
     let flags: u32 = 0x62898235;
